@@ -31,8 +31,8 @@ MANIFEST = {
             "end) = Core's CHECKMULTISIG matching loop for all signature and key lists with #sigs <= #keys, by induction on both lists; "
             "the four handlers CHECKSIG/CHECKSIGVERIFY/CHECKMULTISIG/CHECKMULTISIGVERIFY = Core's arms for every state (stack depth, "
             "4-byte minimal counts, ranges, NULLDUMMY, NULLFAIL, VERIFY suffix, op-count contribution of the key count); "
-            "_delete_signature (bottom-most signature first) = FindAndDelete (top-most first) on every script code whose instructions "
-            "decode (C03M_sigdel_walkable); eval_instruction = one iteration of Core's loop for every state and ALL 256 opcode values "
+            "_delete_signature (bottom-most signature first) = FindAndDelete (top-most first) on EVERY script code, undecodable "
+            "tail included (C03M_sigdel_eq, since the repair of delete_subscript); eval_instruction = one iteration of Core's loop for every state and ALL 256 opcode values "
             "(C03M_step_eq); eval_script = EvalScript (verdict and final stack) for EVERY script, decodable or not, every initial stack "
             "of items within 520 bytes, every flag set, both signature versions (C03M_eval_eq; C03M_eval_unwalkable: a script with an "
             "undecodable instruction fails on both sides); check_solution = VerifyScript for every scriptSig, scriptPubKey, witness, flag "
